@@ -472,3 +472,82 @@ contract(
     abstract=['spec_compatible', 'kind_ok'], opaque=['ends_in_digit', 'is_descriptor'],
     examples=_ex_resolve,
 )
+
+
+# ------------------------------------------------------------------------------------------------
+# MoleculeResolver.__init__ and read_fragment_strings: the constructor state that resolve() starts from, and which level is
+# read as atomistic (C06: "which level is atomistic").  read_fragments itself (the fragment scanner) is assumed.
+contract(
+    target='cgsmiles.read_fragments:read_fragments', trusted=True,
+    params=[('fragment_str', None), ('all_atom', 'True'), ('fragment_dict', 'None')],
+    types={'fragment_str': 'Str', 'all_atom': 'Bool'}, returns='Dict[Str,Graph:tmpl]', modifies=[], allocates=True,
+    raises={'SyntaxError': {'when': None}, 'KeyError': {'when': None}, 'ValueError': {'when': None}},
+    notes='assumed: the fragment scanner / pysmiles reader; checked by the bounded tier (C08, C13, C14)',
+    assumes=['read_fragments returns a dict of new fragment graphs and modifies nothing else (or raises)'],
+)
+
+
+def _ex_rfs():
+    import logging
+    logging.getLogger('pysmiles').setLevel(logging.ERROR)
+    for strings in (["{#A=CC[$],#B=[$]O}"], ["{#X=[#A][#B][$],#Y=[$][#B]}", "{#A=CC[$],#B=[$]O[$]}"], ["{#A=[#a][#b][$],#B=[$][#c]}"], []):
+        for laa in (True, False):
+            if not laa and any('=C' in s for s in strings[-1:]):
+                continue
+            yield {'fragment_strings': list(strings), 'last_all_atom': laa}
+
+
+contract(
+    target='cgsmiles.resolve:MoleculeResolver.read_fragment_strings', serves=['C06'],
+    types={'fragment_strings': 'List[Str]', 'last_all_atom': 'Bool'}, returns='List[Dict[Str,Graph:tmpl]]',
+    locals={'fragment_dicts': 'List[Dict[Str,Graph:tmpl]]'},
+    ensures=[
+        # one fragment dict per fragment string, in order ...
+        "len(result) == len(fragment_strings)",
+        "reads == len(fragment_strings)",
+    ],
+    raises={'SyntaxError': {'when': None}, 'KeyError': {'when': None}, 'ValueError': {'when': None}},
+    modifies=[], allocates=True,
+    ghosts={'reads': ('Int', '0')},
+    on_call={'read_fragments': [
+        "reads = reads + 1",
+        # ... the k-th string is the k-th one read, and it is read as atomistic exactly when it is the LAST string and the flag is set
+        "assert arg_fragment_str == fragment_strings[idx] and idx == reads - 1",
+        "assert arg_all_atom == (idx == len(fragment_strings) - 1 and last_all_atom)"]},
+    loops={0: Loop(over='enumerate(fragment_strings)', invariant=["len(fragment_dicts) == _i0 and reads == _i0"])},
+    examples=_ex_rfs,
+)
+
+
+def _ex_init_resolver():
+    import logging
+    logging.getLogger('pysmiles').setLevel(logging.ERROR)
+    from cgsmiles.resolve import MoleculeResolver
+    from cgsmiles.read_cgsmiles import read_cgsmiles
+    for base, strings, laa in (("{[#A][#B]}", ["{#A=CC[$],#B=[$]O}"], True), ("{[#X][#Y]}", ["{#X=[#A][#B][$],#Y=[$][#B]}", "{#A=CC[$],#B=[$]O[$]}"], True),
+                               ("{[#A][#B]}", ["{#A=[#a][#b][$],#B=[$][#c]}"], False), ("{[#A]}", [], True)):
+        try:
+            g = read_cgsmiles(base)
+            fd = MoleculeResolver.read_fragment_strings(strings, last_all_atom=laa)
+        except Exception:      # noqa: preparation failed (a changed tree): this example is skipped
+            continue
+        yield {'self': MoleculeResolver.__new__(MoleculeResolver), 'molecule_graph': g, 'fragment_dicts': fd, 'last_all_atom': laa, 'legacy': True}
+
+
+contract(
+    target='cgsmiles.resolve:MoleculeResolver.__init__', serves=['C06'],
+    self_fields={'meta_graph': 'Graph:mol', 'molecule': 'Graph:mol', 'legacy': 'Bool', 'last_all_atom': 'Bool',
+                 'resolution_counter': 'Int', 'resolutions': 'Int', 'fragment_dicts': 'List[Dict[Str,Graph:tmpl]]'},
+    types={'molecule_graph': 'Graph:mol', 'fragment_dicts': 'List[Dict[Str,Graph:tmpl]]', 'last_all_atom': 'Bool', 'legacy': 'Bool'},
+    returns=None,
+    ensures=[
+        # the state resolve() starts from: level 0 of len(fragment_dicts) levels, the graph handed in is the graph to refine
+        "self.resolution_counter == 0 and self.resolutions == len(fragment_dicts) and len(self.fragment_dicts) == len(fragment_dicts)",
+        "self.molecule == molecule_graph and self.last_all_atom == last_all_atom and self.legacy == legacy",
+        "self.meta_graph != self.molecule and n_nodes(self.meta_graph) == 0",
+        # the graph handed in is not modified
+        "forall_int(lambda n: node_unchanged(molecule_graph, n))",
+    ],
+    modifies=[], allocates=True,
+    examples=_ex_init_resolver,
+)
